@@ -1,7 +1,7 @@
 CONSTANTS
  Brokers = {"b1","b2"}
  Clients = {"m1","m2"}
- MaxReq = 6
+ MaxReq = 4
  MaxMoves = 2
  MaxGen = 1000
  Apis = {"Join","Sync","Heartbeat","Leave","Commit","Fetch"}
